@@ -26,9 +26,110 @@ type wireNFA struct {
 	accept int
 }
 
-// buildWire builds the token NFA of fn. classify returns the token label of an instruction ("" = not a token).
-// accepting reports whether a return instruction ends a successful run.
-func buildWire(fn *ssa.Function, classify func(ssa.Instruction) string, accepting func(*ssa.Return) bool) *wireNFA {
+// wctx is an instantiation context: a function together with the values bound to its free
+// variables (for closures) so that captured cells can be traced to the enclosing function.
+type wctx struct {
+	fn     *ssa.Function
+	bind   []ssa.Value
+	parent *wctx
+	depth  int
+}
+
+// cellOf resolves an address (an Alloc, or a FreeVar of a closure) to the Alloc it denotes.
+func cellOf(ctx *wctx, addr ssa.Value) ssa.Value {
+	for ctx != nil {
+		switch a := addr.(type) {
+		case *ssa.Alloc:
+			return a
+		case *ssa.FreeVar:
+			for k, fv := range ctx.fn.FreeVars {
+				if fv == a && k < len(ctx.bind) {
+					addr = ctx.bind[k]
+					ctx = ctx.parent
+					goto next
+				}
+			}
+			return nil
+		default:
+			return nil
+		}
+	next:
+	}
+	return nil
+}
+
+// closureStoredIn finds the unique MakeClosure stored into cell within fn.
+func closureStoredIn(fn *ssa.Function, cell ssa.Value) *ssa.MakeClosure {
+	var found *ssa.MakeClosure
+	n := 0
+	for _, b := range fn.Blocks {
+		for _, in := range b.Instrs {
+			if st, ok := in.(*ssa.Store); ok && st.Addr == cell {
+				n++
+				if mc, ok := st.Val.(*ssa.MakeClosure); ok {
+					found = mc
+				}
+			}
+		}
+	}
+	if n == 1 {
+		return found
+	}
+	return nil
+}
+
+// calleeOf resolves a call to a function with a body and the context to analyse it in.
+func calleeOf(c *Ctx, ctx *wctx, call *ssa.CallCommon) *wctx {
+	if call.IsInvoke() || ctx.depth > 4 {
+		return nil
+	}
+	switch v := call.Value.(type) {
+	case *ssa.Function:
+		if c.inModule(v) && v.Blocks != nil {
+			return &wctx{fn: v, parent: ctx, depth: ctx.depth + 1}
+		}
+	case *ssa.MakeClosure:
+		return &wctx{fn: v.Fn.(*ssa.Function), bind: v.Bindings, parent: ctx, depth: ctx.depth + 1}
+	case *ssa.UnOp:
+		if v.Op != token.MUL {
+			return nil
+		}
+		// a closure held in a captured or local variable
+		owner := ctx
+		addr := v.X
+		for owner != nil {
+			if fv, ok := addr.(*ssa.FreeVar); ok {
+				idx := -1
+				for k, x := range owner.fn.FreeVars {
+					if x == fv {
+						idx = k
+					}
+				}
+				if idx < 0 || idx >= len(owner.bind) {
+					return nil
+				}
+				addr, owner = owner.bind[idx], owner.parent
+				continue
+			}
+			break
+		}
+		if owner == nil {
+			return nil
+		}
+		if al, ok := addr.(*ssa.Alloc); ok {
+			if mc := closureStoredIn(owner.fn, al); mc != nil {
+				return &wctx{fn: mc.Fn.(*ssa.Function), bind: mc.Bindings, parent: owner, depth: ctx.depth + 1}
+			}
+		}
+	}
+	return nil
+}
+
+// buildWire builds the token NFA of a function, expanding calls to closures and module
+// functions that (transitively) contain tokens. classify returns the token label of an
+// instruction in its context ("" = not a token). accepting says whether a return of the ROOT
+// function ends a successful run.
+func buildWire(c *Ctx, root *ssa.Function, classify func(*wctx, ssa.Instruction) string, accepting func(*ssa.Return) bool) *wireNFA {
 	n := &wireNFA{}
 	add := func(label string, in ssa.Instruction) *wireNode {
 		w := &wireNode{id: len(n.nodes), label: label, in: in, succ: map[int]bool{}}
@@ -38,68 +139,148 @@ func buildWire(fn *ssa.Function, classify func(ssa.Instruction) string, acceptin
 	entry := add("", nil)
 	acc := add("ACCEPT", nil)
 	n.entry, n.accept = entry.id, acc.id
-	tok := map[ssa.Instruction]*wireNode{}
-	for _, b := range fn.Blocks {
-		for _, in := range b.Instrs {
-			if l := classify(in); l != "" {
-				tok[in] = add(l, in)
+	// hasTokens: does the function (transitively) emit tokens?
+	memo := map[*ssa.Function]int{}
+	var hasTokens func(ctx *wctx) bool
+	hasTokens = func(ctx *wctx) bool {
+		if v, ok := memo[ctx.fn]; ok {
+			return v == 1
+		}
+		memo[ctx.fn] = 0
+		res := false
+		for _, b := range ctx.fn.Blocks {
+			for _, in := range b.Instrs {
+				if classify(ctx, in) != "" {
+					res = true
+				}
+				if call, ok := in.(*ssa.Call); ok {
+					if cc := calleeOf(c, ctx, &call.Call); cc != nil && hasTokens(cc) {
+						res = true
+					}
+				}
 			}
 		}
+		if res {
+			memo[ctx.fn] = 1
+		}
+		return res
 	}
-	// successors of a program point: scan forward to the next tokens / returns
-	scan := func(from *wireNode, b *ssa.BasicBlock, idx int) {
-		type pt struct {
+	// instantiate returns (entryNode, exitNode) of a copy of ctx.fn's token graph; both are epsilon nodes.
+	var instantiate func(ctx *wctx, isRoot bool) (*wireNode, *wireNode)
+	instantiate = func(ctx *wctx, isRoot bool) (*wireNode, *wireNode) {
+		in0 := add("eps", nil)
+		out0 := add("eps", nil)
+		type point struct {
 			b *ssa.BasicBlock
 			i int
 		}
-		seen := map[*ssa.BasicBlock]bool{}
-		stack := []pt{{b, idx}}
-		for len(stack) > 0 {
-			p := stack[len(stack)-1]
-			stack = stack[:len(stack)-1]
-			stopped := false
-			for i := p.i; i < len(p.b.Instrs); i++ {
-				in := p.b.Instrs[i]
-				if t, ok := tok[in]; ok {
-					from.succ[t.id] = true
-					stopped = true
-					break
+		// "stops": instructions that become nodes (tokens, expanded calls)
+		type stop struct {
+			first, last *wireNode
+		}
+		stops := map[ssa.Instruction]stop{}
+		for _, b := range ctx.fn.Blocks {
+			for _, in := range b.Instrs {
+				if l := classify(ctx, in); l != "" {
+					w := add(l, in)
+					stops[in] = stop{w, w}
+					continue
 				}
-				if ret, ok := in.(*ssa.Return); ok {
-					if accepting(ret) {
-						from.succ[acc.id] = true
+				if call, ok := in.(*ssa.Call); ok {
+					if cc := calleeOf(c, ctx, &call.Call); cc != nil && hasTokens(cc) {
+						a, z := instantiate(cc, false)
+						stops[in] = stop{a, z}
 					}
-					stopped = true
-					break
-				}
-				if _, ok := in.(*ssa.Panic); ok {
-					stopped = true
-					break
 				}
 			}
-			if stopped {
-				continue
+		}
+		scan := func(from *wireNode, b *ssa.BasicBlock, idx int) {
+			seen := map[*ssa.BasicBlock]bool{}
+			stack := []point{{b, idx}}
+			for len(stack) > 0 {
+				p := stack[len(stack)-1]
+				stack = stack[:len(stack)-1]
+				stopped := false
+				for i := p.i; i < len(p.b.Instrs); i++ {
+					in := p.b.Instrs[i]
+					if st, ok := stops[in]; ok {
+						from.succ[st.first.id] = true
+						stopped = true
+						break
+					}
+					if ret, ok := in.(*ssa.Return); ok {
+						if !isRoot {
+							from.succ[out0.id] = true
+						} else if accepting(ret) {
+							from.succ[acc.id] = true
+						}
+						stopped = true
+						break
+					}
+					if _, ok := in.(*ssa.Panic); ok {
+						stopped = true
+						break
+					}
+				}
+				if stopped {
+					continue
+				}
+				for _, s := range p.b.Succs {
+					if !seen[s] {
+						seen[s] = true
+						stack = append(stack, point{s, 0})
+					}
+				}
 			}
-			for _, s := range p.b.Succs {
+		}
+		if len(ctx.fn.Blocks) > 0 {
+			scan(in0, ctx.fn.Blocks[0], 0)
+		}
+		for in, st := range stops {
+			b := in.Block()
+			for i, x := range b.Instrs {
+				if x == in {
+					scan(st.last, b, i+1)
+				}
+			}
+		}
+		return in0, out0
+	}
+	a, _ := instantiate(&wctx{fn: root}, true)
+	entry.succ[a.id] = true
+	n.elimEps()
+	return n
+}
+
+// elimEps removes epsilon nodes by closing successor sets over them.
+func (n *wireNFA) elimEps() {
+	isEps := func(id int) bool { return n.nodes[id].label == "eps" }
+	var closure func(id int, seen map[int]bool, out map[int]bool)
+	closure = func(id int, seen map[int]bool, out map[int]bool) {
+		for s := range n.nodes[id].succ {
+			if isEps(s) {
 				if !seen[s] {
 					seen[s] = true
-					stack = append(stack, pt{s, 0})
+					closure(s, seen, out)
 				}
+			} else {
+				out[s] = true
 			}
 		}
 	}
-	if len(fn.Blocks) > 0 {
-		scan(entry, fn.Blocks[0], 0)
+	for _, w := range n.nodes {
+		if w.label == "eps" {
+			continue
+		}
+		out := map[int]bool{}
+		closure(w.id, map[int]bool{}, out)
+		w.succ = out
 	}
-	for in, t := range tok {
-		b := in.Block()
-		for i, x := range b.Instrs {
-			if x == in {
-				scan(t, b, i+1)
-			}
+	for _, w := range n.nodes {
+		if w.label == "eps" {
+			w.succ = map[int]bool{}
 		}
 	}
-	return n
 }
 
 func returnsNilError(ret *ssa.Return) bool {
@@ -168,11 +349,13 @@ func wireInclusion(a, b *wireNFA) (ok bool, at *wireNode, expected []*wireNode, 
 	return true, nil, nil, nil, states
 }
 
-// encoder token classifier: append(<output chain>, y...) where y is the result of the varint
-// encoder (U) or a one-element varargs array (B).
-func encClassifier(c *Ctx, fn *ssa.Function, varintEnc string) func(ssa.Instruction) string {
-	// output chain: values that flow into result #0 through phi / append first operands
+// encoder token classifier: append(<output>, y...) where the result goes back into the output
+// variable (an SSA value chain ending in result #0, or a cell captured by closures); y is the
+// result of the varint encoder (U) or a one-element varargs array (B).
+func encClassifier(c *Ctx, fn *ssa.Function, varintEnc string) func(*wctx, ssa.Instruction) string {
+	// value chain (no closures): values that flow into result #0 through phi / append / slice
 	chain := map[ssa.Value]bool{}
+	var outCell ssa.Value
 	var work []ssa.Value
 	for _, b := range fn.Blocks {
 		if ret, ok := b.Instrs[len(b.Instrs)-1].(*ssa.Return); ok && len(ret.Results) > 0 {
@@ -195,21 +378,60 @@ func encClassifier(c *Ctx, fn *ssa.Function, varintEnc string) func(ssa.Instruct
 			}
 		case *ssa.Slice:
 			work = append(work, x.X)
+		case *ssa.UnOp:
+			if x.Op == token.MUL {
+				if al, ok := x.X.(*ssa.Alloc); ok {
+					outCell = al // the output lives in a variable captured by closures
+				}
+			}
 		}
 	}
-	return func(in ssa.Instruction) string {
+	// lastStored: the value most recently stored (earlier in the same block) into the cell read by ld
+	lastStored := func(ctx *wctx, ld *ssa.UnOp) ssa.Value {
+		cell := cellOf(ctx, ld.X)
+		if cell == nil {
+			return nil
+		}
+		var val ssa.Value
+		for _, in := range ld.Block().Instrs {
+			if in == ssa.Instruction(ld) {
+				break
+			}
+			if st, ok := in.(*ssa.Store); ok && cellOf(ctx, st.Addr) == cell {
+				val = st.Val
+			}
+		}
+		return val
+	}
+	return func(ctx *wctx, in ssa.Instruction) string {
 		call, ok := in.(*ssa.Call)
 		if !ok {
 			return ""
 		}
 		b, ok := call.Call.Value.(*ssa.Builtin)
-		if !ok || b.Name() != "append" || !chain[call] {
+		if !ok || b.Name() != "append" {
+			return ""
+		}
+		isOut := ctx.fn == fn && chain[call]
+		if !isOut && outCell != nil {
+			for _, ref := range *call.Referrers() {
+				if st, ok := ref.(*ssa.Store); ok && st.Val == ssa.Value(call) && cellOf(ctx, st.Addr) == outCell {
+					isOut = true
+				}
+			}
+		}
+		if !isOut {
 			return ""
 		}
 		if len(call.Call.Args) != 2 {
 			return "?"
 		}
 		y := call.Call.Args[1]
+		if ld, ok := y.(*ssa.UnOp); ok && ld.Op == token.MUL {
+			if v := lastStored(ctx, ld); v != nil {
+				y = v
+			}
+		}
 		if cc, ok := y.(*ssa.Call); ok {
 			if f := cc.Call.StaticCallee(); f != nil && c.short(f) == varintEnc {
 				return "U"
@@ -227,8 +449,8 @@ func encClassifier(c *Ctx, fn *ssa.Function, varintEnc string) func(ssa.Instruct
 	}
 }
 
-func decClassifier(c *Ctx, varintDec string) func(ssa.Instruction) string {
-	return func(in ssa.Instruction) string {
+func decClassifier(c *Ctx, varintDec string) func(*wctx, ssa.Instruction) string {
+	return func(ctx *wctx, in ssa.Instruction) string {
 		call, ok := in.(*ssa.Call)
 		if !ok {
 			return ""
@@ -257,8 +479,8 @@ func decClassifier(c *Ctx, varintDec string) func(ssa.Instruction) string {
 
 func ruleGrammar(c *Ctx, r *RuleResult, encName, decName, varintEnc, varintDec string) {
 	enc, dec := c.Fn(encName), c.Fn(decName)
-	A := buildWire(enc, encClassifier(c, enc, varintEnc), func(ret *ssa.Return) bool { return returnsNilError(ret) })
-	B := buildWire(dec, decClassifier(c, varintDec), returnsNilError)
+	A := buildWire(c, enc, encClassifier(c, enc, varintEnc), func(ret *ssa.Return) bool { return returnsNilError(ret) })
+	B := buildWire(c, dec, decClassifier(c, varintDec), returnsNilError)
 	count := func(n *wireNFA) (u, b, q int) {
 		for _, w := range n.nodes {
 			switch w.label {
